@@ -111,7 +111,7 @@ func (p *PreBinder) PreBindRollBack(_ context.Context, _ *cache.BindContext) { p
 // StatusUpdater answers the pod status update a failed (pre-)bind triggers.
 type StatusUpdater struct {
 	util.FakeStatusUpdater
-	FailPod bool
+	FailPod    bool
 	PodUpdates int
 }
 
@@ -222,27 +222,27 @@ func (p PodSpec) Object() *v1.Pod {
 // ---------- the controller ----------
 
 type Ctl struct {
-	SC      *cache.SchedulerCache
-	ErrQ    *Queue
-	DelQ    *Queue
-	Binder  *Binder
-	Evictor *Evictor
+	SC        *cache.SchedulerCache
+	ErrQ      *Queue
+	DelQ      *Queue
+	Binder    *Binder
+	Evictor   *Evictor
 	PreBinder *PreBinder
-	Status  *StatusUpdater
-	gone    map[int64]bool    // deleted on the API server, delete notification not delivered yet
-	pods    map[int64]*v1.Pod // informer store: last delivered version
-	pgs     map[int64]*schedulingv1beta1.PodGroup
-	queues  map[int64]*schedulingv1beta1.Queue
-	rv      int
+	Status    *StatusUpdater
+	gone      map[int64]bool    // deleted on the API server, delete notification not delivered yet
+	pods      map[int64]*v1.Pod // informer store: last delivered version
+	pgs       map[int64]*schedulingv1beta1.PodGroup
+	queues    map[int64]*schedulingv1beta1.Queue
+	rv        int
 }
 
 func New() *Ctl {
 	c := &Ctl{
 		ErrQ: &Queue{}, DelQ: &Queue{},
-		Binder:  &Binder{Fail: map[int64]bool{}},
-		Evictor: &Evictor{Fail: map[int64]bool{}, Done: make(chan struct{}, 16)},
+		Binder:    &Binder{Fail: map[int64]bool{}},
+		Evictor:   &Evictor{Fail: map[int64]bool{}, Done: make(chan struct{}, 16)},
 		PreBinder: &PreBinder{Fail: map[int64]bool{}}, Status: &StatusUpdater{}, gone: map[int64]bool{},
-		pods:    map[int64]*v1.Pod{}, pgs: map[int64]*schedulingv1beta1.PodGroup{}, queues: map[int64]*schedulingv1beta1.Queue{},
+		pods: map[int64]*v1.Pod{}, pgs: map[int64]*schedulingv1beta1.PodGroup{}, queues: map[int64]*schedulingv1beta1.Queue{},
 	}
 	c.SC = cache.NewCustomMockSchedulerCache("volcano", c.Binder, c.Evictor, c.Status, nil, &record.FakeRecorder{})
 	c.SC.RegisterBinder("verif-prebinder", c.PreBinder)
